@@ -121,8 +121,7 @@ theorem corrOK_step_entries (hf : env.flagsOk = true) (x : Val)
   · simp only [nanFree, Bool.and_eq_true] at hn
     simp only [keysDistinct, Bool.and_eq_true] at hdx
     obtain ⟨⟨nk, nv⟩, nr⟩ := hn
-    have hprior : hasType env V (mapGet k (zeroVal env (zfuel env) V) ds) = true :=
-      mapGet_hasType hz hds
+    have hprior : hasType env V (zeroVal env (zfuel env) V) = true := hz
     obtain ⟨v1, n1, h1, t1, e1⟩ := (ih v (by simp <;> omega)).field V _ n hok hv hprior nv
     have hds1 := entriesHaveType_mapSet hk t1 ds hds
     have hdd1 := keysDistinct_mapSet (v := v1) hf hK hk ds hds hdd
